@@ -1,6 +1,8 @@
 """R12 instances for pass-through observers (C05) and generic row-loop shape helpers."""
 import ast
 
+from sa.pattern import match_expr
+
 from sa.deps import Facts, base_name, names_in, pseudo
 from sa.loader import AnalysisError, FuncInfo, own_nodes
 from sa.model import fq, row_loops, rowloop_signature, u, where
@@ -211,3 +213,62 @@ def writer_keeps_no_row(ctx, rule='R12w'):
             run.ok(rule, fi.where, fi.qualname + '(%s)' % ', '.join(sorted(params)), 'nothing row-derived stored in self.*')
     run.floor(rule, n_methods, 5, 'writer methods reached from write_row')
     return n_methods
+
+
+def json_object_is_row(ctx, rule='R16j'):
+    """The JSON writer serialises the transformed row itself: one object per row whose keys are the field names of the schema.  An
+    object that is re-keyed on the way (by titles, by a user mapping) loses a value whenever two keys collide and is read back under
+    names the stamped schema does not have."""
+    run, repo, res = ctx.run, ctx.repo, ctx.res
+    run.rule(rule, 'JSON-OBJECT: in JSONFormat.write_transformed_row (helpers inlined) exactly one json.dumps call is written per row '
+                   'and its argument is the transformed row it was given, on every path')
+    j = repo.cls('dataflows.processors.dumpers.formats.format_json:JSONFormat')
+    wt0 = j.methods.get('write_transformed_row')
+    if wt0 is None:
+        raise AnalysisError('JSONFormat.write_transformed_row not found')
+    wt = ctx.N(wt0)
+    rowp = wt.params[1] if len(wt.params) > 1 else None
+    from sa.pathvals import PathValues
+    from sa.paths import Enumerator as _En
+    n_paths, ok, seen_dump = 0, rowp is not None, False
+    for p in _En(where=wt0.qualname).paths(wt.node.body):
+        n_paths += 1
+        pv = PathValues(p)
+        dumps = []
+        for o_, c_ in pv.stmts:
+            for x in ast.walk(c_):
+                if isinstance(x, ast.Call) and u(x.func) in ('json.dumps', 'json.dump'):
+                    dumps.append(x)
+        for ev in pv.events:
+            if ev[0] == 'assign':
+                for x in ast.walk(ev[2]):
+                    if isinstance(x, ast.Call) and u(x.func) in ('json.dumps', 'json.dump'):
+                        dumps.append(x)
+        seen_dump = seen_dump or bool(dumps)
+        # (a call bound to a local first is seen again where the local is used: the same call)
+        ok = ok and len({ast.dump(d) for d in dumps}) == 1 and bool(dumps[0].args) and pseudo(dumps[0].args[0]) == rowp
+    if not seen_dump:
+        raise AnalysisError('JSONFormat.write_transformed_row: no json.dumps call found (helpers inlined)')
+    run.check(ok and n_paths >= 1, rule, wt0.where, j.qualname, 'json.dumps(<the transformed row>)',
+              'the object written for a row is not the transformed row itself (it is re-keyed or rebuilt on the way): values are lost '
+              'where two keys collide and the file no longer has the field names of the stamped schema')
+    # GeoJSON builds a feature around the row's properties: they are the transformed row's entries (minus the geometry), not re-keyed
+    g = repo.classes.get('dataflows.processors.dumpers.formats.format_geojson:GeoJSONFormat')
+    if g is not None and g.methods.get('write_transformed_row') is not None:
+        gw = ctx.N(g.methods['write_transformed_row'])
+        gp = gw.params[1]
+        props = [k.value for c in ast.walk(gw.node) if isinstance(c, ast.Call) and isinstance(c.func, ast.Name) and c.func.id == 'dict'
+                 for k in c.keywords if k.arg == 'properties'] + \
+                [v for d in ast.walk(gw.node) if isinstance(d, ast.Dict) for k, v in zip(d.keys, d.values)
+                 if isinstance(k, ast.Constant) and k.value == 'properties']
+        okg = len(props) == 1 and isinstance(props[0], ast.Name)
+        if okg:
+            pn = props[0].id
+            loops = [l for l in ast.walk(gw.node) if isinstance(l, ast.For) and match_expr('%s.items()' % gp, l.iter) is not None
+                     and isinstance(l.target, ast.Tuple) and len(l.target.elts) == 2 and all(isinstance(t, ast.Name) for t in l.target.elts)]
+            stores = [a for a in ast.walk(gw.node) if isinstance(a, ast.Assign) and isinstance(a.targets[0], ast.Subscript)
+                      and pseudo(a.targets[0].value) == pn]
+            okg = len(loops) == 1 and len(stores) == 1 and any(stores[0] is x for x in ast.walk(loops[0])) and \
+                pseudo(stores[0].targets[0].slice) == loops[0].target.elts[0].id and pseudo(stores[0].value) == loops[0].target.elts[1].id
+        run.check(okg, rule, gw.where, g.qualname, 'properties[k] = v for the entries of the transformed row (geometry apart)',
+                  'the properties of a GeoJSON feature are not the entries of the transformed row under their field names')
